@@ -519,22 +519,19 @@ fn env() -> Env {
     }
     let data = vec![vec![10, 11, 12], vec![], vec![-5]];
     // the other solution comes first and has a strictly longer pre-image
-    let all = vec![(vec![vec![99; 10], vec![7]], [9u8; 32], [8u8; 32]), (data.clone(), contract_addr, pred_addr)];
+    let all = vec![(vec![vec![99; 10], vec![7]], [9u8; 32], [8u8; 32]), (data.clone(), contract_addr, pred_addr),
+        (vec![], [7u8; 32], [6u8; 32]), (vec![vec![1], vec![2, 3]], contract_addr, [5u8; 32])];
     Env { all, data, pred_addr, contract_addr, pre, post }
 }
 
 fn access(env: &Env) -> Access {
-    let sol = Solution {
-        predicate_to_solve: PredicateAddress { contract: ContentAddress(env.contract_addr), predicate: ContentAddress(env.pred_addr) },
-        predicate_data: env.data.clone(),
+    // the checked solution is env.all[1]; the others come before and after it
+    let sols: Vec<Solution> = env.all.iter().map(|(d, c, p)| Solution {
+        predicate_to_solve: PredicateAddress { contract: ContentAddress(*c), predicate: ContentAddress(*p) },
+        predicate_data: d.clone(),
         state_mutations: vec![],
-    };
-    let other = Solution {
-        predicate_to_solve: PredicateAddress { contract: ContentAddress(env.all[0].1), predicate: ContentAddress(env.all[0].2) },
-        predicate_data: env.all[0].0.clone(),
-        state_mutations: vec![],
-    };
-    Access::new(Arc::new(vec![other, sol]), 1)
+    }).collect();
+    Access::new(Arc::new(sols), 1)
 }
 
 fn check(ctx: &Ctx, id: &str, op: asm::Op, s: &[Word], m: &[Word], env: &Env) {
@@ -749,6 +746,11 @@ fn check_program(ctx: &Ctx, id: &str, ops: &[asm::Op], limit: u64, env: &Env) {
 }
 
 fn check_program_cost(ctx: &Ctx, id: &str, ops: &[asm::Op], limit: u64, env: &Env, cost: &(dyn Fn(&asm::Op) -> u64 + Send + Sync)) {
+    check_program_yield(ctx, id, ops, limit, env, cost, 4096)
+}
+
+/// `per_yield` has no meaning for synchronous execution: the result must not depend on it.
+fn check_program_yield(ctx: &Ctx, id: &str, ops: &[asm::Op], limit: u64, env: &Env, cost: &(dyn Fn(&asm::Op) -> u64 + Send + Sync), per_yield: u64) {
     if !ctx.want(id) {
         return;
     }
@@ -765,7 +767,7 @@ fn check_program_cost(ctx: &Ctx, id: &str, ops: &[asm::Op], limit: u64, env: &En
                 (self.0)(op)
             }
         }
-        let r = vm.exec_ops(ops, access(env), &st, &Cost(cost), GasLimit { per_yield: 4096, total: limit });
+        let r = vm.exec_ops(ops, access(env), &st, &Cost(cost), GasLimit { per_yield, total: limit });
         let s: W = vm.stack.clone().into();
         let m: W = vm.memory.clone().into();
         (r.ok().map(|g| (s.clone(), m, vm.pc, g)), s, vm.pc)
@@ -864,7 +866,25 @@ fn crypto(ctx: &Ctx, env: &Env) {
         let mut high = [0xffu8; 64];
         high[63] = 0xfe;
         let rid_i: i32 = rid.into();
-        for (name, sigb, rbit) in [("good", compact, rid_i as Word), ("other-recid", compact, (1 - rid_i % 2) as Word), ("corrupt", corrupt, rid_i as Word), ("zero", zero, 0), ("overflow", high, 1), ("bad-recid", compact, 4), ("neg-recid", compact, -1), ("huge-recid", compact, Word::MAX)] {
+        let mut cases: Vec<(String, [u8; 64], Word)> = [("good", compact, rid_i as Word), ("other-recid", compact, (1 - rid_i % 2) as Word), ("corrupt", corrupt, rid_i as Word), ("zero", zero, 0), ("overflow", high, 1), ("bad-recid", compact, 4), ("neg-recid", compact, -1), ("huge-recid", compact, Word::MAX)]
+            .into_iter().map(|(n, b, r)| (n.to_string(), b, r)).collect();
+        // every recovery id on the real signature, and signatures with a tiny r (ids 2 / 3 then denote r + n, which can lie on the curve) or a tiny s
+        for rid in 0..4 {
+            cases.push((format!("recid-{rid}"), compact, rid));
+            for r in 1u8..=24 {
+                for sv in [1u8, 2, 77] {
+                    let mut b = [0u8; 64];
+                    b[31] = r;
+                    b[63] = sv;
+                    cases.push((format!("tiny-r/{r}/{sv}/{rid}"), b, rid));
+                }
+            }
+            let mut b = compact;
+            b[32..].fill(0);
+            b[63] = 1;
+            cases.push((format!("tiny-s/{rid}"), b, rid));
+        }
+        for (name, sigb, rbit) in cases {
             let id = format!("vmops/Secp256k1/{hi}/{name}");
             if !ctx.want(&id) {
                 continue;
@@ -942,12 +962,78 @@ fn programs(ctx: &Ctx, env: &Env) {
             p(1), p(1), S::Repeat.into(), p(1), Alu::Sub.into(), S::Dup.into(), p(0), Pred::Eq.into(), Pred::Not.into(), p(-11), S::Swap.into(), T::JumpIf.into(), S::Pop.into(), C::ComputeEnd.into()]),
         ("repeat-limit-top-level", vec![p(4100), p(1), p(1), S::Repeat.into(), p(1), Alu::Sub.into(), S::Dup.into(), p(0), Pred::Eq.into(), Pred::Not.into(), p(-11), S::Swap.into(), T::JumpIf.into()]),
         ("repeat-4096-exactly", vec![p(4096), p(1), p(1), S::Repeat.into(), p(1), Alu::Sub.into(), S::Dup.into(), p(0), Pred::Eq.into(), Pred::Not.into(), p(-11), S::Swap.into(), T::JumpIf.into()]),
+        // a loop left by a backward jump to before an earlier loop: its slot stays on the repeat stack while the earlier loop runs again, and is
+        // what RepeatCounter / an enclosing RepeatEnd see afterwards (guard flag in memory word 0 so that the jump is taken once)
+        ("abandoned-slot-counter", vec![p(1), M::Alloc.into(), S::Pop.into(), p(2), p(1), S::Repeat.into(), p(5), S::Pop.into(), S::RepeatEnd.into(),
+            p(3), p(0), S::Repeat.into(), p(-16), p(0), M::Load.into(), Pred::Not.into(), p(1), p(0), M::Store.into(), T::JumpIf.into(), S::RepeatEnd.into(), A::RepeatCounter.into()]),
+        ("abandoned-slot-resumed", vec![p(1), M::Alloc.into(), S::Pop.into(), p(2), p(1), S::Repeat.into(), p(1), p(1), S::Repeat.into(), S::RepeatEnd.into(),
+            p(2), p(0), S::Repeat.into(), A::RepeatCounter.into(), p(-15), p(0), M::Load.into(), Pred::Not.into(), p(1), p(0), M::Store.into(), T::JumpIf.into(), S::RepeatEnd.into(), S::RepeatEnd.into()]),
+        // every child of a Compute leaves the section backwards and stops before the Compute op: the parent resumes at the Compute op itself
+        ("compute-children-stop-before-compute", vec![p(3), p(1), T::JumpIf.into(), C::ComputeEnd.into(), S::Pop.into(), p(0), p(1), p(1), C::Compute.into(),
+            S::Pop.into(), p(-9), S::Swap.into(), T::JumpIf.into(), p(1), M::Alloc.into(), S::Pop.into(), C::ComputeEnd.into(), p(42)]),
+        ("compute-children-halt-before-compute", vec![p(3), p(1), T::JumpIf.into(), T::Halt.into(), S::Pop.into(), p(0), p(1), p(2), C::Compute.into(),
+            S::Pop.into(), p(-9), S::Swap.into(), T::JumpIf.into(), p(1), M::Alloc.into(), S::Pop.into(), C::ComputeEnd.into(), p(42)]),
         ("repeat-end-without-repeat", vec![p(1), S::RepeatEnd.into()]),
         ("counter-without-repeat", vec![A::RepeatCounter.into()]),
     ];
     for (name, ops) in &named {
         for limit in [u64::MAX, 1000, 20, 7] {
             check_program(ctx, &format!("vmops/program/{name}/{limit}"), ops, limit, env);
+        }
+    }
+    // ---- trip counts beyond 32 bits: the loop is left in its third pass (by HaltIf or a far jump), so only the first passes are executed
+    for (ci, c) in [(1i64 << 32) + 2, (1 << 40) + 1, (1 << 33) + 1, (1 << 32) + 1, 1 << 32, (1 << 32) - 1, (1 << 31) + 1, (1 << 48) + 3, Word::MAX, (1 << 63 - 1) - (1 << 32) + 2].into_iter().enumerate() {
+        for up in [1i64, 0] {
+            let third = if up == 1 { 2 } else { c - 3 };
+            let halt: Vec<asm::Op> = vec![p(c), p(up), S::Repeat.into(), A::RepeatCounter.into(), S::Dup.into(), p(third), Pred::Eq.into(), T::HaltIf.into(), S::Pop.into(), S::RepeatEnd.into(), p(77)];
+            check_program(ctx, &format!("vmops/program/big-trip-halt/{ci}/{up}"), &halt, 10_000, env);
+            let jump: Vec<asm::Op> = vec![p(c), p(up), S::Repeat.into(), A::RepeatCounter.into(), p(third), Pred::Eq.into(), p(3), S::Swap.into(), T::JumpIf.into(), S::RepeatEnd.into(), p(77), p(78)];
+            check_program(ctx, &format!("vmops/program/big-trip-jump/{ci}/{up}"), &jump, 10_000, env);
+        }
+    }
+    // ---- two loops (optionally inside an outer loop) and one guarded jump out of the second loop's body to every position of the program
+    for outer in [0i64, 2] {
+        for (a, adir) in [(1i64, 1i64), (2, 0)] {
+            for (b, bdir) in [(2i64, 0i64), (3, 1)] {
+                let mut head: Vec<asm::Op> = vec![p(1), M::Alloc.into(), S::Pop.into()];
+                if outer != 0 {
+                    head.extend([p(outer), p(1), S::Repeat.into()]);
+                }
+                head.extend([p(a), p(adir), S::Repeat.into(), A::RepeatCounter.into(), S::Pop.into(), S::RepeatEnd.into()]);
+                head.extend([p(b), p(bdir), S::Repeat.into(), A::RepeatCounter.into()]);
+                // [dist] [flag not yet set] [set flag] JumpIf
+                let jump_at = head.len() + 7;
+                let total = jump_at + 2 + if outer != 0 { 1 } else { 0 } + 1;
+                for target in 0..total {
+                    if target == jump_at {
+                        continue;
+                    }
+                    let mut ops = head.clone();
+                    ops.extend([p(target as i64 - jump_at as i64), p(0), M::Load.into(), Pred::Not.into(), p(1), p(0), M::Store.into(), T::JumpIf.into(), S::RepeatEnd.into()]);
+                    if outer != 0 {
+                        ops.push(S::RepeatEnd.into());
+                    }
+                    ops.push(A::RepeatCounter.into());
+                    check_program(ctx, &format!("vmops/program/guarded-jump/{outer}/{a}{adir}/{b}{bdir}/{target}"), &ops, 3_000, env);
+                }
+            }
+        }
+    }
+    // ---- several PredicateExists in one program: every sequence of up to three lookups among the four solutions of the set and an absent hash
+    {
+        let mut hs: Vec<[u8; 32]> = env.all.iter().map(|(d, c, pr)| pre_image_hash(d, c, pr)).collect();
+        hs.push([3u8; 32]);
+        for a in 0..hs.len() {
+            for b in 0..hs.len() {
+                for c in 0..=hs.len() {
+                    let mut ops: Vec<asm::Op> = vec![];
+                    for h in [Some(a), Some(b), if c < hs.len() { Some(c) } else { None }].into_iter().flatten() {
+                        ops.extend(be_words(&hs[h]).into_iter().map(p));
+                        ops.push(A::PredicateExists.into());
+                    }
+                    check_program(ctx, &format!("vmops/program/exists-seq/{a}/{b}/{c}"), &ops, u64::MAX, env);
+                }
+            }
         }
     }
     // ---- two state reads in one program: every ordered pair of the four reads with the same contract, key and count (own contract given as the external address too)
@@ -973,19 +1059,27 @@ fn programs(ctx: &Ctx, env: &Env) {
         ("compute-tail", vec![p(3), C::Compute.into(), S::Pop.into(), C::ComputeEnd.into()]),
         ("compute-mid", vec![p(2), C::Compute.into(), p(7), S::Pop.into(), C::ComputeEnd.into(), p(5)]),
         ("loop", vec![p(3), p(1), S::Repeat.into(), A::RepeatCounter.into(), S::Pop.into(), S::RepeatEnd.into()]),
+        ("compute-pushes", vec![p(2), C::Compute.into(), p(30), S::Pop.into(), p(3), S::Pop.into(), S::Pop.into(), C::ComputeEnd.into(), p(9), p(1)]),
     ];
     // cost per op class: (push, compute, everything else)
     let tables: Vec<(u64, u64, u64)> = vec![(1, 1, 1), (0, 0, 1), (0, 0, 1 << 63), (0, 5, 1), (2, 7, 3), (0, 0, 0), (1, u64::MAX - 3, 1), (0, 0, u64::MAX / 3 + 1), (1 << 62, 0, 1 << 62)];
+    let mut costs: Vec<Box<dyn Fn(&asm::Op) -> u64 + Send + Sync>> = vec![];
+    for (cp, cc, co) in tables.iter() {
+        let (cp, cc, co) = (*cp, *cc, *co);
+        costs.push(Box::new(move |op: &asm::Op| -> u64 {
+            match op {
+                asm::Op::Stack(S::Push(_)) => cp,
+                asm::Op::Compute(C::Compute) => cc,
+                _ => co,
+            }
+        }));
+    }
+    // costs that depend on the operand of the op, not only on its kind
+    costs.push(Box::new(|op: &asm::Op| match op { asm::Op::Stack(S::Push(n)) => 1 + n.unsigned_abs() % 50, _ => 2 }));
+    costs.push(Box::new(|op: &asm::Op| match op { asm::Op::Stack(S::Push(n)) if *n > 5 => 0, asm::Op::Stack(S::Push(_)) => 40, _ => 1 }));
     for (name, ops) in &costed {
-        for (ti, (cp, cc, co)) in tables.iter().enumerate() {
-            let (cp, cc, co) = (*cp, *cc, *co);
-            let cost = move |op: &asm::Op| -> u64 {
-                match op {
-                    asm::Op::Stack(S::Push(_)) => cp,
-                    asm::Op::Compute(C::Compute) => cc,
-                    _ => co,
-                }
-            };
+        for (ti, cost) in costs.iter().enumerate() {
+            let cost = &**cost;
             // limits: every prefix sum of the unlimited reference run, +-1, and the extremes
             let mut sums: Vec<u128> = vec![0];
             {
@@ -1016,7 +1110,17 @@ fn programs(ctx: &Ctx, env: &Env) {
             limits.sort();
             limits.dedup();
             for limit in limits {
-                check_program_cost(ctx, &format!("vmops/cost/{name}/{ti}/{limit}"), ops, limit, env, &cost);
+                check_program_cost(ctx, &format!("vmops/cost/{name}/{ti}/{limit}"), ops, limit, env, cost);
+            }
+        }
+    }
+    // ---- per_yield: compute children and loops that spend more than per_yield while the total limit is far away (and the converse)
+    let long_child: Vec<asm::Op> = vec![p(2), C::Compute.into(), S::Pop.into(), p(5000), p(1), S::Repeat.into(), S::RepeatEnd.into(), C::ComputeEnd.into(), p(1)];
+    let long_loop: Vec<asm::Op> = vec![p(6000), p(0), S::Repeat.into(), S::RepeatEnd.into(), p(1), C::Compute.into(), S::Pop.into(), C::ComputeEnd.into()];
+    for (name, ops) in [("long-child", &long_child), ("long-loop", &long_loop)] {
+        for per_yield in [0u64, 1, 7, 4095, 4096, 4097, 20_000, u64::MAX] {
+            for limit in [u64::MAX, 1_000_000, 12_000, 10_011, 10_010, 6_000, 4096, 100] {
+                check_program_yield(ctx, &format!("vmops/yield/{name}/{per_yield}/{limit}"), ops, limit, env, &|_: &asm::Op| 1u64, per_yield);
             }
         }
     }
@@ -1208,6 +1312,14 @@ pub fn run(ctx: &Ctx) {
         let s = &full[..STACK_LIMIT - cut];
         for op in [asm::Op::from(S::Push(1)), S::Dup.into(), A::ThisAddress.into(), A::PredicateDataSlots.into()] {
             check(ctx, &format!("vmops/limit/{:?}/{cut}", op), op, s, &[], &env);
+        }
+        // predicate data that fills the stack exactly / goes one beyond (slot 0 has three words)
+        for k in [0, 1, 2, 3] {
+            for ix in [0, 1] {
+                let mut s4 = full[..STACK_LIMIT - cut - 3].to_vec();
+                s4.extend([0, ix, k]);
+                check(ctx, &format!("vmops/limit/PredicateData/{cut}/{ix}/{k}"), A::PredicateData.into(), &s4, &[], &env);
+            }
         }
         for k in [0, 1, 2, 3, 4, 5, 6] {
             let mut s2 = s[..s.len() - 2].to_vec();
@@ -1428,6 +1540,21 @@ pub fn run(ctx: &Ctx) {
     for len in [0i64, 1, 7, 8, 9, 16, 17, 24, -1, 25, 100] {
         let s: W = vec![5, 0x0102030405060708, -2, 0x1122334455667788, len];
         check(ctx, &format!("vmops/Sha256/{len}"), Crypto::Sha256.into(), &s, &[], &env);
+    }
+    // every byte length up to 1100 on exactly the words it needs, and every length of the last word around multiples of 64 words
+    for len in 0..=1100usize {
+        let words = (len + 7) / 8;
+        let mut s: W = (0..words as Word).map(|i| (i + 1).wrapping_mul(0x0123_4567_89ab_cdef)).collect();
+        s.push(len as Word);
+        check(ctx, &format!("vmops/Sha256/exact/{len}"), Crypto::Sha256.into(), &s, &[], &env);
+    }
+    for k in [3usize, 4, 8, 16, 32, 63] {
+        for len in 64 * k * 8 - 9..=64 * k * 8 + 1 {
+            let words = (len + 7) / 8;
+            let mut s: W = (0..words as Word).map(|i| (i + 7).wrapping_mul(0x0f1e_2d3c_4b5a_6978)).collect();
+            s.push(len as Word);
+            check(ctx, &format!("vmops/Sha256/block/{k}/{len}"), Crypto::Sha256.into(), &s, &[], &env);
+        }
     }
     // long inputs (up to the whole stack)
     for (words, len) in [(64usize, 512i64), (129, 1025), (1024, 8192), (1025, 8193), (1152, 9216), (1153, 9217), (2000, 15_999), (4094, 32_752), (4094, 32_745), (100, 801)] {
